@@ -2131,7 +2131,8 @@ class TestByTestResult(TestResult):
         )
 
     def _err_to_details(self, test, err, details):
-        if details:
+        # An empty details dict is still "details were supplied" (err is None then).
+        if details is not None:
             return details
         return {"traceback": TracebackContent(err, test, capture_locals=self.tb_locals)}
 
